@@ -71,6 +71,7 @@ class PathCtx:
     self.axioms_used = set()
     self.assumes = []
     self.index_terms = []  # Skolem index terms for reduction-fact instantiation
+    self.index_points = []  # full-rank Skolem index tuples
     self.reductions = []
     self.ghost = {}
     self.inlined = set()
@@ -208,6 +209,13 @@ class PathCtx:
       # failure does not cascade into many.
       self.assume(claim)
     return status
+
+  def require(self, name, claim, kind="contract", detail=""):
+    """oblige(); a concretely false claim also ends the path (later steps would be meaningless)."""
+    st = self.oblige(name, claim, kind=kind, detail=detail)
+    if st != "unsat" and (claim is False or (hasattr(claim, "z") and z3.is_false(z3.simplify(claim.z)))):
+      raise PathEnd()
+    return st
 
   def fail(self, name, kind="definedness", detail=""):
     """An error state reached on a feasible path: pc => False is violated."""
